@@ -4,10 +4,12 @@ from fractions import Fraction
 from ..runner import Op
 
 ID = "C11"
-KINDS = {"U": ["polar_transform_eq_kron", "minSum_signLaw", "sc_clean", "extract_place", "sc_decodes_clean", "info_set_card", "info_mask_length", "interleaved_is_bitreversal", "sc_decodes_clean_interleaved"],
+KINDS = {"U": ["polar_transform_eq_kron", "minSum_signLaw", "sc_clean", "extract_place", "sc_decodes_clean", "info_set_card", "info_mask_length", "interleaved_is_bitreversal", "sc_decodes_clean_interleaved", "sumProduct_signLaw", "sc_decodes_clean_sum_product"],
          "K": ["rank_is_5G", "rank_is_permutation"]}
-PARTIAL = ["sum-product check rule 2 atanh(tanh(a/2) tanh(b/2)): its sign law is not proved in Lean; clean decoding in that regime "
-           "and the polar belief-propagation decoder are checked on the implementation against the property (tests); SC on arbitrary LLRs in the sum-product regime is compared with a float64 textbook recursion",
+PARTIAL = ["sum-product check rule: modelled as sign(x).sign(y).max(|h(x,y)|, tiny) clipped to +-c with an ARBITRARY inner function h (the transcendental value "
+           "2 atanh(tanh tanh) / log1p form is floating point and not modelled): sign law and clean decoding are theorems for every h (sumProduct_signLaw, "
+           "sc_decodes_clean_sum_product); the structural claim is tied to sum_product() by a sign test over 38 decades of magnitudes, the VALUES of the rule and SC on "
+           "arbitrary LLRs in this regime are compared with a float64 textbook recursion (tests); the polar belief-propagation decoder is tested against the property",
            "'chosen by the 5G reliability ranking': the extracted CSV is kernel-compared with the hand-held copy of TS 38.212 Table 5.3.1.2-1 in lean/Kaira/Rank5G.lean (trusted reference)"]
 RULE = ("pinfo / penc / pkron / psc lines for N = 2..1024: information masks, encodings of all (k <= 6) or random messages for both frozen values and both orders, "
         "Kronecker matrices, SC decisions on arbitrary dyadic LLRs (min-sum, exact) ; non-trivial = non-zero message / non-constant LLR signs")
@@ -225,6 +227,17 @@ def corr(ctx):
         worst["%g-%g" % band] = dev
         ops.append(Op("pkron 0", "1", nontrivial=False, info={"site": "fec.decoders:SuccessiveCancellationDecoder.checknode", "config": {"band": list(band), "max_rel_dev": dev}}, prop_ok=dev < 2e-3))
     ctx.extra["checknode_max_rel_dev"] = worst
+    # the structural claim behind C11.sumProduct_signLaw: for non-zero inputs of ANY magnitude the rule returns a non-zero value
+    # with the sign sign(x).sign(y) (model: sign re-imposed on an arbitrary inner value)
+    from kaira.models.fec.utils import sum_product as _sp
+    mags = [1e-38, 1e-30, 1e-12, 1e-6, 1e-3, 0.1, 1.0, 9.99, 10.0, 10.01, 17.0, 37.0, 88.0, 500.0, 1e4, 1e30]
+    xs = torch.tensor([sa * a for a in mags for b in mags for sa in (1, -1) for sb in (1, -1)], dtype=torch.float32)
+    ys = torch.tensor([sb * b for a in mags for b in mags for sa in (1, -1) for sb in (1, -1)], dtype=torch.float32)
+    r = _sp(xs, ys)
+    okr = bool(((r != 0) & (torch.sign(r) == torch.sign(xs) * torch.sign(ys)) & torch.isfinite(r)).all())
+    bad = [(float(a), float(b), float(v)) for a, b, v in zip(xs.tolist(), ys.tolist(), r.tolist()) if v == 0 or (v < 0) != ((a < 0) != (b < 0)) or v != v][:3]
+    ops.append(Op("pkron 0", "1", nontrivial=False, info={"site": "fec.utils:sum_product.sign", "config": {"pairs": len(xs), "first_bad": bad}}, prop_ok=okr))
+    ctx.count("sum_product_sign_pairs", len(xs))
     return ops
 
 
